@@ -107,32 +107,9 @@ def _eq_components(ctx: Ctx, c: ClassInfo, fn: FuncInfo) -> Set[str]:
     return comps
 
 
-def rule_r1_r2(ctx: Ctx) -> None:
+def _bls_probe_rule(ctx: Ctx) -> None:
+    """fallback when the sets cannot be constructed and compared (R8): the comparison evaluated on two probes"""
     repo = ctx.repo
-    ctx.rule("C18.R1", "hash ⊆ eq: every state component read by __hash__ is compared by __eq__; eq and hash are overridden together", min_instances=8)
-    classes = [c for c in repo.all_classes().values() if ("__eq__" in c.methods or "__hash__" in c.methods)]
-    r2_items: List[Tuple[ClassInfo, FuncInfo]] = []
-    for c in sorted(classes, key=lambda x: x.qualname):
-        eq, hs = c.methods.get("__eq__"), c.methods.get("__hash__")
-        if eq is None or hs is None:
-            ctx.fail(c.short, "__eq__/__hash__ pairing", "a class that overrides one of __eq__/__hash__ must override the other", where=c.module.relpath, detail={"__eq__": eq is not None, "__hash__": hs is not None})
-            continue
-        if eq.is_abstract and hs.is_abstract:
-            continue
-        hc = _components(ctx, c, hs) - {"type()"}
-        ec = _eq_components(ctx, c, eq)
-        extra = sorted(hc - ec)
-        ctx.check(not extra, c.short, "hash reads %s; eq compares %s" % (sorted(hc), sorted(ec)), "equal objects must have equal hashes: __hash__ may only read what __eq__ compares", hs.where(), {"hash_only": extra})
-        r2_items.append((c, eq))
-    ctx.rule("C18.R2", "eq shape: NotImplemented for foreign types (never False / an exception); BitLengthSet.__eq__ compares set-determined queries only; SerializableType.__eq__ checks the class both ways", min_instances=8)
-    for c, eq in r2_items:
-        paths = paths_of(eq.node)
-        rets = [p for p in paths if p.kind == "return"]
-        ni = [p for p in rets if norm(p.value) == "NotImplemented"]
-        falls = [p for p in paths if p.kind in ("fall",)]
-        raises = [p for p in paths if p.kind == "raise"]
-        bare_false = [p for p in rets if norm(p.value) == "False" and any(isinstance(cnd, ast.Call) and dotted(cnd.func) == "isinstance" and not pol for cnd, pol in p.conds if not isinstance(cnd, tuple))]
-        ctx.check(bool(ni) and not falls and not raises and not bare_false, c.short + ".__eq__", "foreign operand -> NotImplemented", "comparison with a foreign type must return NotImplemented", eq.where(), {"paths": [repr(p)[:120] for p in paths][:6]})
     # BitLengthSet.__eq__ abstractly evaluated on two probes that stand for *equal* sets: every query of one set-determined kind
     # (min, max, residues modulo d, fixed_length) gives both the same abstract answer; anything else that is asked is recorded
     from ..absint import Raised, call_fn
@@ -220,13 +197,49 @@ def rule_r1_r2(ctx: Ctx) -> None:
         raise AnalysisError("BitLengthSet.__eq__: cannot evaluate over abstract sets: %s" % err)
     good = not foreign and bool(results) and all(r is True for r in results) and "min" in asked and "max" in asked
     ctx.check(good, b.short + ".__eq__", "asks %s%s" % (sorted(set(asked)), (" and " + str(sorted(set(foreign)))) if foreign else ""), "set equality must be decided from set-determined queries only (min, max, residues) so equal sets never compare unequal - and without expanding", eq.where(), {"answers for equal sets": [repr(r) for r in results], "other queries": sorted(set(foreign))})
-    s = ctx.cls("_serializable._serializable.SerializableType")
-    eq = s.methods["__eq__"]
-    txt = norm(eq.node)
-    both = "isinstance(other, type(self))" in txt and "isinstance(self, type(other))" in txt
-    ctx.check(both, s.short + ".__eq__", "class relation tested both ways", "type equality must be symmetric", eq.where())
-    hs = s.methods["__hash__"]
-    ctx.check("str(self)" in norm(hs.node), s.short + ".__hash__", "hash of the normalised string form", "hash derives from the string form (+ set)", hs.where(), nontrivial=False)
+
+
+def rule_r1_r2(ctx: Ctx) -> None:
+    repo = ctx.repo
+    ctx.rule("C18.R1", "hash ⊆ eq: every state component read by __hash__ is compared by __eq__; eq and hash are overridden together (classes outside the type model, which R7 / R8 decide on constructed instances)", min_instances=5)
+    ser_family = set(repo.subclasses(ctx.cls("_serializable._serializable.SerializableType"))) | set(repo.subclasses(ctx.cls("_serializable._attribute.Attribute")))
+    bls_by_contract = bool(ctx.rule_docs.get("C18.R8")) and not any("rule_r8_bls_contract" in e_ for e_ in ctx.errors)
+    by_contract = bool(ctx.rule_docs.get("C18.R7")) and not any("rule_r7_contract" in e_ for e_ in ctx.errors)
+    # the type model's own equality / hash is decided by R7 on constructed instances (a comparison of source shapes would alarm on
+    # an extracted helper or a hoisted method); the component comparison below covers every other class that defines them
+    classes = [c for c in repo.all_classes().values() if ("__eq__" in c.methods or "__hash__" in c.methods) and not (by_contract and c in ser_family)]
+    r2_items: List[Tuple[ClassInfo, FuncInfo]] = []
+    for c in sorted(classes, key=lambda x: x.qualname):
+        eq, hs = c.methods.get("__eq__"), c.methods.get("__hash__")
+        if eq is None or hs is None:
+            ctx.fail(c.short, "__eq__/__hash__ pairing", "a class that overrides one of __eq__/__hash__ must override the other", where=c.module.relpath, detail={"__eq__": eq is not None, "__hash__": hs is not None})
+            continue
+        if eq.is_abstract and hs.is_abstract:
+            continue
+        hc = _components(ctx, c, hs) - {"type()"}
+        ec = _eq_components(ctx, c, eq)
+        extra = sorted(hc - ec)
+        ctx.check(not extra, c.short, "hash reads %s; eq compares %s" % (sorted(hc), sorted(ec)), "equal objects must have equal hashes: __hash__ may only read what __eq__ compares", hs.where(), {"hash_only": extra})
+        r2_items.append((c, eq))
+    ctx.rule("C18.R2", "eq shape: NotImplemented for foreign types (never False / an exception); BitLengthSet.__eq__ compares set-determined queries only; SerializableType.__eq__ checks the class both ways", min_instances=5)
+    for c, eq in r2_items:
+        paths = paths_of(eq.node)
+        rets = [p for p in paths if p.kind == "return"]
+        ni = [p for p in rets if norm(p.value) == "NotImplemented"]
+        falls = [p for p in paths if p.kind in ("fall",)]
+        raises = [p for p in paths if p.kind == "raise"]
+        bare_false = [p for p in rets if norm(p.value) == "False" and any(isinstance(cnd, ast.Call) and dotted(cnd.func) == "isinstance" and not pol for cnd, pol in p.conds if not isinstance(cnd, tuple))]
+        ctx.check(bool(ni) and not falls and not raises and not bare_false, c.short + ".__eq__", "foreign operand -> NotImplemented", "comparison with a foreign type must return NotImplemented", eq.where(), {"paths": [repr(p)[:120] for p in paths][:6]})
+    if not bls_by_contract:
+        _bls_probe_rule(ctx)
+    if not by_contract:
+        s = ctx.cls("_serializable._serializable.SerializableType")
+        eq = s.methods["__eq__"]
+        txt = norm(eq.node)
+        both = "isinstance(other, type(self))" in txt and "isinstance(self, type(other))" in txt
+        ctx.check(both, s.short + ".__eq__", "class relation tested both ways", "type equality must be symmetric", eq.where())
+        hs = s.methods["__hash__"]
+        ctx.check("str(self)" in norm(hs.node), s.short + ".__hash__", "hash of the normalised string form", "hash derives from the string form (+ set)", hs.where(), nontrivial=False)
 
 
 def rule_r3(ctx: Ctx) -> None:
@@ -324,7 +337,263 @@ def rule_r5(ctx: Ctx) -> None:
         ctx.check(not offenders and not special and not slots, c.short, "picklable state", "model objects must pickle by value with all fields", c.module.relpath, {"unpicklable_stores": offenders, "special": special, "slots": slots}, nontrivial=bool(c.methods))
 
 
+# ----------------------------------------------------------------------------------------------------------------------
+def _model_pool(ctx: Ctx) -> Tuple[List[Tuple[str, Any, Any]], Any]:
+    """instances of the type model built through the repository's own constructors (evaluated from source), each with the
+    identity the property assigns to it: (kind, normalised string form, bit length set).  Returns ([(label, instance, key)],
+    hook)."""
+    from ..absint import APath, Raised, construct, ctor_hook, module_call_hook, path_hook
+    from ..fold import Folder, Unfoldable
+    from .c11 import _version
+
+    SER = "_serializable."
+    prim = ctx.cls(SER + "_primitive.PrimitiveType")
+
+    def hook_for(c: ClassInfo) -> Any:
+        return path_hook(ctor_hook(ctx, module_call_hook(ctx, c.module, [], [], results={"check_name": None}, record=["check_name"])))
+
+    def mk(short: str, *a: Any, **k: Any) -> Any:
+        c = ctx.cls(SER + short)
+        try:
+            return construct(ctx, c, *a, hook=hook_for(c), **k)
+        except Raised as r:
+            raise AnalysisError("%s%r cannot be constructed: %s" % (c.name, a, r.cls_name))
+        except Unfoldable as ex:
+            raise AnalysisError("%s%r cannot be constructed over the rule's arguments: %s" % (c.name, a, ex))
+
+    f0 = Folder({}, ctx.repo, prim.module, prim)
+    try:
+        TRU = f0.fold(ast.parse("PrimitiveType.CastMode.TRUNCATED", mode="eval").body)
+        SAT = f0.fold(ast.parse("PrimitiveType.CastMode.SATURATED", mode="eval").body)
+    except Unfoldable as ex:
+        raise AnalysisError("the cast modes cannot be evaluated: %s" % ex)
+    pool: List[Tuple[str, Any, Any]] = []
+
+    def add(label: str, obj: Any, kind: str, text: str, bls: Any) -> Any:
+        pool.append((label, obj, (kind, text, frozenset(bls))))
+        return obj
+
+    u8t = add("truncated uint8", mk("_primitive.UnsignedIntegerType", 8, TRU), "UnsignedIntegerType", "truncated uint8", {8})
+    add("truncated uint8 (again)", mk("_primitive.UnsignedIntegerType", 8, TRU), "UnsignedIntegerType", "truncated uint8", {8})
+    add("saturated uint8", mk("_primitive.UnsignedIntegerType", 8, SAT), "UnsignedIntegerType", "saturated uint8", {8})
+    u16 = add("truncated uint16", mk("_primitive.UnsignedIntegerType", 16, TRU), "UnsignedIntegerType", "truncated uint16", {16})
+    add("saturated int8", mk("_primitive.SignedIntegerType", 8, SAT), "SignedIntegerType", "saturated int8", {8})
+    add("saturated float32", mk("_primitive.FloatType", 32, SAT), "FloatType", "saturated float32", {32})
+    add("saturated bool", mk("_primitive.BooleanType"), "BooleanType", "saturated bool", {1})
+    add("byte", mk("_primitive.ByteType"), "ByteType", "byte", {8})
+    add("utf8", mk("_primitive.UTF8Type"), "UTF8Type", "utf8", {8})
+    v8 = add("void8", mk("_void.VoidType", 8), "VoidType", "void8", {8})
+    add("void8 (again)", mk("_void.VoidType", 8), "VoidType", "void8", {8})
+    add("void16", mk("_void.VoidType", 16), "VoidType", "void16", {16})
+    add("uint8[4]", mk("_array.FixedLengthArrayType", u8t, 4), "FixedLengthArrayType", "truncated uint8[4]", {32})
+    add("uint8[4] (again)", mk("_array.FixedLengthArrayType", u8t, 4), "FixedLengthArrayType", "truncated uint8[4]", {32})
+    add("uint8[5]", mk("_array.FixedLengthArrayType", u8t, 5), "FixedLengthArrayType", "truncated uint8[5]", {40})
+    add("uint8[<=4]", mk("_array.VariableLengthArrayType", u8t, 4), "VariableLengthArrayType", "truncated uint8[<=4]", {8, 16, 24, 32, 40})
+    fa, fb, fw = mk("_attribute.Field", u8t, "a"), mk("_attribute.Field", u8t, "b"), mk("_attribute.Field", u16, "a")
+
+    def composite(kind: str, name: str, ver: Tuple[int, int], attrs: List[Any], deprecated: bool = False, pid: Any = None, doc: str = "") -> Any:
+        comps = name.split(".")
+        return mk("_composite." + kind, name=name, version=_version(*ver), attributes=list(attrs), deprecated=deprecated, fixed_port_id=pid, source_file_path=APath("/r/%s/X.%d.%d.dsdl" % ("/".join(comps[:-1]), ver[0], ver[1])), has_parent_service=False, doc=doc)
+
+    A = add("ns.A.1.0 {uint8 a}", composite("StructureType", "ns.A", (1, 0), [fa]), "StructureType", "ns.A.1.0", {8})
+    add("ns.A.1.0 {uint8 a} (again)", composite("StructureType", "ns.A", (1, 0), [fa]), "StructureType", "ns.A.1.0", {8})
+    # the same name, version and length set with another field name: equal by the property's definition of equality
+    Ax = add("ns.A.1.0 {uint8 b}", composite("StructureType", "ns.A", (1, 0), [fb]), "StructureType", "ns.A.1.0", {8})
+    # documentation, deprecation and the port-ID are not part of what the property calls equal
+    add("ns.A.1.0 {uint8 a}, documented, deprecated, port 7000", composite("StructureType", "ns.A", (1, 0), [fa], deprecated=True, pid=7000, doc="text"), "StructureType", "ns.A.1.0", {8})
+    add("ns.A.1.0 {uint16 a}", composite("StructureType", "ns.A", (1, 0), [fw]), "StructureType", "ns.A.1.0", {16})
+    add("ns.A.1.1 {uint8 a}", composite("StructureType", "ns.A", (1, 1), [fa]), "StructureType", "ns.A.1.1", {8})
+    add("ns.B.1.0 {uint8 a}", composite("StructureType", "ns.B", (1, 0), [fa]), "StructureType", "ns.B.1.0", {8})
+    add("union ns.A.1.0 {uint8 a, uint8 b}", composite("UnionType", "ns.A", (1, 0), [fa, fb]), "UnionType", "ns.A.1.0", {16})
+    add("delimited ns.A.1.0, extent 64", mk("_composite.DelimitedType", A, 64), "DelimitedType", "ns.A.1.0", {32 + 8 * i for i in range(9)})
+    add("delimited ns.A.1.0 {uint8 b}, extent 64", mk("_composite.DelimitedType", Ax, 64), "DelimitedType", "ns.A.1.0", {32 + 8 * i for i in range(9)})
+    add("delimited ns.A.1.0, extent 128", mk("_composite.DelimitedType", A, 128), "DelimitedType", "ns.A.1.0", {32 + 8 * i for i in range(17)})
+    # containers of equal-comparing element types are equal themselves
+    add("ns.A.1.0[<=2] over {uint8 a}", mk("_array.VariableLengthArrayType", A, 2), "VariableLengthArrayType", "ns.A.1.0[<=2]", {8, 16, 24})
+    add("ns.A.1.0[<=2] over {uint8 b}", mk("_array.VariableLengthArrayType", Ax, 2), "VariableLengthArrayType", "ns.A.1.0[<=2]", {8, 16, 24})
+    add("ns.A.1.0[2] over {uint8 a}", mk("_array.FixedLengthArrayType", A, 2), "FixedLengthArrayType", "ns.A.1.0[2]", {16})
+    add("ns.A.1.0[2] over {uint8 b}", mk("_array.FixedLengthArrayType", Ax, 2), "FixedLengthArrayType", "ns.A.1.0[2]", {16})
+    # two element types of one name whose layouts differ ({32, 64} and {64}); arrays of them have *different* length sets with the
+    # same bounds and the same residues modulo a small number, which the approximate set equality may report as equal - whatever
+    # it answers, the hashes must follow
+    u24, u56, u64 = mk("_primitive.UnsignedIntegerType", 24, TRU), mk("_primitive.UnsignedIntegerType", 56, TRU), mk("_primitive.UnsignedIntegerType", 64, TRU)
+    E1 = composite("UnionType", "ns.E", (1, 0), [mk("_attribute.Field", u24, "a"), mk("_attribute.Field", u56, "b")])
+    E2 = composite("StructureType", "ns.E", (1, 0), [mk("_attribute.Field", u64, "a")])
+    add("ns.E.1.0[<=2] over a union {32, 64}", mk("_array.VariableLengthArrayType", E1, 2), "VariableLengthArrayType", "ns.E.1.0[<=2]", {8, 40, 72, 104, 136})
+    add("ns.E.1.0[<=2] over a structure {64}", mk("_array.VariableLengthArrayType", E2, 2), "VariableLengthArrayType", "ns.E.1.0[<=2]", {8, 72, 136})
+    add("ns.E.1.0[2] over a union {32, 64}", mk("_array.FixedLengthArrayType", E1, 2), "FixedLengthArrayType", "ns.E.1.0[2]", {64, 96, 128})
+    add("ns.E.1.0[2] over a structure {64}", mk("_array.FixedLengthArrayType", E2, 2), "FixedLengthArrayType", "ns.E.1.0[2]", {128})
+    # attributes: equal exactly when kind, type, name (and value, for constants) agree
+    rat = ctx.cls("_expression._primitive.Rational")
+
+    def R(n: int) -> Any:
+        try:
+            return construct(ctx, rat, n, hook=hook_for(rat))
+        except (Raised, Unfoldable) as ex:
+            raise AnalysisError("Rational(%d) cannot be constructed: %s" % (n, ex))
+
+    def addattr(label: str, obj: Any, *key: Any) -> None:
+        pool.append((label, obj, ("attribute",) + key))
+
+    addattr("uint8 a", fa, "Field", "truncated uint8", "a")
+    addattr("uint8 a (again)", mk("_attribute.Field", u8t, "a"), "Field", "truncated uint8", "a")
+    addattr("uint8 a, documented", mk("_attribute.Field", u8t, "a", "a doc comment"), "Field", "truncated uint8", "a")  # the comment is not part of the value
+    addattr("uint8 K = 5, documented", mk("_attribute.Constant", u8t, "K", R(5), "another comment"), "Constant", "truncated uint8", "K", 5)
+    addattr("uint8 b", fb, "Field", "truncated uint8", "b")
+    addattr("uint16 a", fw, "Field", "truncated uint16", "a")
+    addattr("ns.A.1.0 a over {uint8 a}", mk("_attribute.Field", A, "a"), "Field", "ns.A.1.0", "a")
+    addattr("ns.A.1.0 a over {uint8 b}", mk("_attribute.Field", Ax, "a"), "Field", "ns.A.1.0", "a")
+    addattr("void8", mk("_attribute.PaddingField", v8), "PaddingField", "void8", "")
+    addattr("void8 (again)", mk("_attribute.PaddingField", v8), "PaddingField", "void8", "")
+    addattr("void16", mk("_attribute.PaddingField", mk("_void.VoidType", 16)), "PaddingField", "void16", "")
+    addattr("uint8 K = 5", mk("_attribute.Constant", u8t, "K", R(5)), "Constant", "truncated uint8", "K", 5)
+    addattr("uint8 K = 5 (again)", mk("_attribute.Constant", u8t, "K", R(5)), "Constant", "truncated uint8", "K", 5)
+    addattr("uint8 K = 6", mk("_attribute.Constant", u8t, "K", R(6)), "Constant", "truncated uint8", "K", 6)
+    addattr("uint8 L = 5", mk("_attribute.Constant", u8t, "L", R(5)), "Constant", "truncated uint8", "L", 5)
+    addattr("uint16 K = 5", mk("_attribute.Constant", u16, "K", R(5)), "Constant", "truncated uint16", "K", 5)
+    return pool, hook_for(prim)
+
+
+def rule_r8_bls_contract(ctx: Ctx) -> bool:
+    """BitLengthSet equality / hash on sets built through the public compositions: the same set built in two ways compares equal,
+    has the same hash, and deciding it expands nothing"""
+    from ..absint import Raised, construct
+    from ..fold import Folder, Unfoldable
+    from .c01 import _quiet_hook
+
+    ctx.rule("C18.R8", "BitLengthSet built through its own constructor and compositions: two constructions of the same set compare equal (both ways) and have equal hashes; whenever two sets compare equal their hashes agree; the comparison expands neither operand", min_instances=2)
+    b = ctx.cls("_bit_length_set._bit_length_set.BitLengthSet")
+    from .c01 import _op_of, _unwrap
+
+    expansions: List[str] = []
+    operands: List[Any] = []
+
+    def hook(e: ast.expr, f: Any) -> Any:
+        if isinstance(e, ast.Call) and isinstance(e.func, ast.Attribute) and e.func.attr == "expand" and operands:
+            # an expansion of one of the two operands' own operators (the residue sets the comparison builds are small by
+            # construction and may be enumerated)
+            try:
+                recv = _unwrap(ctx, f.fold(e.func.value))
+            except Unfoldable:
+                recv = None
+            if any(recv is o for o in operands):
+                expansions.append(norm(e)[:40])
+        return _quiet_hook(e, f)
+
+    env: Dict[str, Any] = {}
+    f = Folder(env, ctx.repo, b.module, None, hook)
+
+    def ev(src: str) -> Any:
+        try:
+            return Folder(env, ctx.repo, b.module, None, hook).fold(ast.parse(src, mode="eval").body)
+        except Raised as r:
+            return "raise " + r.cls_name
+        except Unfoldable as ex:
+            raise AnalysisError("%s cannot be evaluated: %s" % (src, ex))
+
+    same = [
+        ("BitLengthSet({0, 8, 16})", "BitLengthSet(8).repeat_range(2)"),
+        ("BitLengthSet({3, 4, 5})", "BitLengthSet(1) + BitLengthSet({2, 3, 4})"),
+        ("BitLengthSet({3, 4, 5})", "BitLengthSet({2, 3, 4}) + 1"),
+        ("BitLengthSet({8, 16})", "BitLengthSet({1, 8, 9, 16}).pad_to_alignment(8)"),
+        ("BitLengthSet({1, 2, 7})", "BitLengthSet({1, 2}) | BitLengthSet({7, 2})"),
+        ("BitLengthSet({24})", "BitLengthSet(8).repeat(3)"),
+        ("BitLengthSet({0, 40, 80, 120})", "BitLengthSet(40).repeat_range(3)"),
+        ("BitLengthSet({8, 40, 72, 104, 136})", "BitLengthSet(8) + BitLengthSet({32, 64}).repeat_range(2)"),
+        ("BitLengthSet(range(0, 257, 8))", "BitLengthSet(8).repeat_range(32)"),
+        ("BitLengthSet(5)", "BitLengthSet([5])"),
+    ]
+    # pairs of *different* sets: whatever the comparison answers, equal => same hash
+    other = [("BitLengthSet({8, 40, 72, 104, 136})", "BitLengthSet({8, 72, 136})"), ("BitLengthSet({0, 32, 64})", "BitLengthSet({0, 64})"), ("BitLengthSet({1, 2})", "BitLengthSet({1, 3})"), ("BitLengthSet({0, 8})", "BitLengthSet({0, 16})")]
+    bad_eq, bad_hash = [], []
+    for a, c in same + other:
+        del expansions[:]
+        del operands[:]
+        env["p"], env["q"] = ev(a), ev(c)
+        operands.extend(o for o in (_op_of(ctx, env["p"]), _op_of(ctx, env["q"])) if o is not None)
+        ab, ba = ev("p == q"), ev("q == p")
+        ha, hc = ev("hash(p)"), ev("hash(q)")
+        exp = list(expansions)
+        del operands[:]
+        ctx.count(4)
+        if (a, c) in same and (ab is not True or ba is not True):
+            bad_eq.append({"a": a, "b": c, "a == b": ab, "b == a": ba, "note": "the same set built in two ways"})
+        if ab != ba or ab not in (True, False):
+            bad_eq.append({"a": a, "b": c, "a == b": ab, "b == a": ba})
+        if exp:
+            bad_eq.append({"a": a, "b": c, "note": "the comparison expands an operand: %s" % exp[:2]})
+        if not isinstance(ha, int) or not isinstance(hc, int) or (ab is True and ha != hc):
+            bad_hash.append({"a": a, "b": c, "a == b": ab, "hashes": (ha, hc)})
+    eqf, hf = b.methods.get("__eq__"), b.methods.get("__hash__")
+    ctx.check(not bad_eq, b.short + ".__eq__", "%d constructions of equal sets, %d of different ones" % (len(same), len(other)), "set equality never reports two equal sets as different, is symmetric, and does not enumerate the sets", eqf.where() if eqf else b.module.relpath, bad_eq[:4])
+    ctx.check(not bad_hash, b.short + ".__hash__", "hash agrees wherever equality holds", "the hash of a bit length set is consistent with its equality", hf.where() if hf else b.module.relpath, bad_hash[:4])
+    return True
+
+
+def rule_r7_contract(ctx: Ctx) -> None:
+    """the equality / hash contract of the type model, decided on instances built by the repository's own constructors"""
+    from ..absint import Raised
+    from ..fold import Folder, Unfoldable
+
+    ctx.rule("C18.R7", "types and attributes built by the model's own constructors (primitives, voids, arrays, structures, unions, delimited types, containers of them; fields, paddings, constants): a == b exactly when kind, normalised string form and bit length set agree (attributes: kind, type, name, value); symmetric; reflexive; equal objects have equal hashes; a foreign operand compares unequal without an exception", min_instances=4)
+    pool, hook = _model_pool(ctx)
+    ser = ctx.cls("_serializable._serializable.SerializableType")
+    env = {"x%d" % i: o for i, (_, o, _k) in enumerate(pool)}
+    f = Folder(env, ctx.repo, ser.module, None, hook)
+
+    def ev(src: str) -> Any:
+        try:
+            return f.fold(ast.parse(src, mode="eval").body)
+        except Raised as r:
+            return "raise " + r.cls_name
+        except Unfoldable as ex:
+            raise AnalysisError("%s cannot be evaluated on constructed model instances: %s" % (src, ex))
+
+    hashes = [ev("hash(x%d)" % i) for i in range(len(pool))]
+    ctx.count(len(pool))
+    wrong_eq, asym, wrong_hash, irreflexive, foreign = [], [], [], [], []
+    for (la, _, _k), h in zip(pool, hashes):
+        if not isinstance(h, int):
+            wrong_hash.append({"a": la, "hash": h, "note": "not hashable (a class that defines __eq__ must define __hash__ too)"})
+    for i, (la, _, ka) in enumerate(pool):
+        if ev("x%d == x%d" % (i, i)) is not True:
+            irreflexive.append(la)
+        for j, (lb, _, kb) in enumerate(pool):
+            if j <= i:
+                continue
+            ab, ba = ev("x%d == x%d" % (i, j)), ev("x%d == x%d" % (j, i))
+            ctx.count(2)
+            if ab != ba:
+                asym.append({"a": la, "b": lb, "a == b": ab, "b == a": ba})
+            # equal identities must compare equal; a different kind, string form, smallest or largest length must compare
+            # unequal; length sets that differ only inside the same bounds may compare either way (set equality may err towards
+            # equality, never towards inequality)
+            must_equal = ka == kb
+            if ka[0] == "attribute" or kb[0] == "attribute":
+                must_differ = ka != kb
+            else:
+                must_differ = ka[:2] != kb[:2] or min(ka[2]) != min(kb[2]) or max(ka[2]) != max(kb[2])
+            if (must_equal and ab is not True) or (must_differ and ab is not False) or ab not in (True, False):
+                wrong_eq.append({"a": la, "b": lb, "a == b": ab, "expected": True if must_equal else False})
+            if ab is True and hashes[i] != hashes[j]:
+                wrong_hash.append({"a": la, "b": lb, "note": "equal, but the hashes differ"})
+        for fv in ("5", "'x'", "None", "(1, 2)"):
+            r = ev("x%d == %s" % (i, fv))
+            ctx.count()
+            if r is not False:
+                foreign.append({"a": la, "foreign": fv, "result": r})
+    eqf = ctx.repo.lookup_method(ser, "__eq__")
+    hf = ctx.repo.lookup_method(ser, "__hash__")
+    where_eq = eqf.where() if eqf else ser.module.relpath
+    ctx.check(not wrong_eq and not irreflexive, ser.short + ".__eq__", "equality over %d constructed instances = agreement of (kind, string form, bit length set)" % len(pool), "equality distinguishes types that differ in kind, normalised string form or bit length set - and nothing else - and is reflexive", where_eq, {"wrong": wrong_eq[:4], "not equal to itself": irreflexive[:3]})
+    ctx.check(not asym, ser.short + ".__eq__", "a == b and b == a agree on every pair", "equality is symmetric", where_eq, asym[:4])
+    ctx.check(not wrong_hash, ser.short + ".__hash__", "equal instances have equal hashes (%d equal pairs)" % sum(1 for i in range(len(pool)) for j in range(i + 1, len(pool)) if pool[i][2] == pool[j][2]), "equal objects must have equal hashes", hf.where() if hf else where_eq, wrong_hash[:4])
+    ctx.check(not foreign, ser.short + ".__eq__", "foreign operands (int, str, None, tuple) compare unequal", "comparison with a foreign value yields False (through NotImplemented), never an exception or True", where_eq, foreign[:4])
+
+
 def run(ctx: Ctx) -> None:
+    ctx.attempt(rule_r7_contract, ctx)
+    ctx.attempt(rule_r8_bls_contract, ctx)
     ctx.attempt(rule_r1_r2, ctx)
     ctx.attempt(rule_r3, ctx)
     ctx.attempt(rule_r4, ctx)
